@@ -20,7 +20,8 @@ EXPLANATION = (
     'correct_value call (of the node itself, or of the linked node) or the bounded affine map of the relative '
     'position, never the raw argument; (A5) decode assigns a design-variable node only under its existence test '
     'and reports the stored / corrected value, not the input; the design-variable definition takes bounds and '
-    'options from the node.')
+    'options from the node.'
+    ' Every design-variable node of the graph is in the list of nodes that receive values.')
 
 
 def clamp_regions(ctx, rule='A16'):
